@@ -434,6 +434,7 @@ type BuildOpts struct {
 
 func nodeOpts(sp *Spec, n *NodeSpec, path string, bo *BuildOpts, skipOutputKey ...bool) []compose.GraphAddNodeOpt {
 	var opts []compose.GraphAddNodeOpt
+	opts = append(opts, compose.WithNodeName(path+n.Key)) // run info of callbacks carries the node path
 	if n.InputKey != "" {
 		opts = append(opts, compose.WithInputKey(n.InputKey))
 	}
